@@ -325,6 +325,86 @@ def run(ctx):
                     "(None, local part) as well, so `<p lang=en xml:lang=fr>` keeps only xml:lang (and `<a xlink:href=x href=y>` only "
                     "href) while the ElementTree back-end keeps both")],
             detail={"setAttribute_calls": len(plain)})
+    # ---- C04.12 the DOM back-end creates an element without namespace only when it has none (HTML element with namespacing off)
+    from ..partition import MiniInterp, Opaque
+    r.rule("C04.12", "dom elementClass keeps the namespace of every element that has one", floor=6)
+    ec = dm_tb.methods.get("elementClass")
+    if ec is None:
+        raise AnalysisError("dom TreeBuilder.elementClass vanished")
+    ns_map = ctx.ce.const("constants.py", "namespaces")
+    for default in (None, ns_map["html"]):
+        for nsk in (None, "html", "svg", "mathml"):
+            ns_val = None if nsk is None else ns_map[nsk]
+            made = []
+
+            def stmt_hook(st, out, interp, made=made):
+                if isinstance(st, ast.Assign) and isinstance(st.value, ast.Call) and isinstance(st.value.func, ast.Attribute) and \
+                        st.value.func.attr in ("createElement", "createElementNS"):
+                    made.append((st.value.func.attr, [norm(a) for a in st.value.args]))
+                    out.env[norm(st.targets[0])] = Opaque("node")
+                    return False
+                return NotImplemented
+
+            def hook(node, local, default=default):
+                if norm(node) == "self.defaultNamespace":
+                    return default
+                return NotImplemented
+            interp = MiniInterp(ctx.ce, ec.module, expr_hook=hook, stmt_hook=stmt_hook)
+            key = "dom-element-namespace[default=%s element=%s]" % ("None" if default is None else "html", nsk)
+            try:
+                interp.run(ec.node.body, {"self": Opaque("self"), ec.params()[1]: "x", ec.params()[2]: ns_val})
+            except AnalysisError as e:
+                r.idiom("C04.12", False, key, ec.where, "dom elementClass not decidable (%s)" % str(e)[:60])
+                continue
+            kept = bool(made) and made[0][0] == "createElementNS" and made[0][1][:1] == [ec.params()[2]]
+            need = ns_val is not None
+            r.check("C04.12", kept or not need, key, ec.where,
+                    "with namespaceHTMLElements=%s the DOM back-end creates a %s element with %s: its namespace is dropped, the parser then "
+                    "treats the foreign subtree as HTML, and the tree differs from the ElementTree back-end's" % (
+                        default is not None, nsk, made[0][0] if made else "nothing"),
+                    {"default": default, "namespace": nsk}, detail={"default": default, "namespace": nsk, "call": made[0][0] if made else None})
+    # ---- C04.13 `seq[seq.index(x) - 1]` wraps around to the last element when x is first: the element before the first child
+    # does not exist, and Python silently hands out the *last* one
+    r.rule("C04.13", "`[index - 1]` on a position obtained from .index() is guarded against index 0 (or argued to be >= 1)", floor=4)
+    ARGUED_NONZERO = {
+        "InBodyPhase.endTagFormatting": "the formatting element is never the root html element (index 0 of the stack of open elements)",
+        "TreeBuilder.getTableMisnestedNodePosition": "a table element is never the root html element (index 0 of the stack of open elements)",
+    }
+    n13 = 0
+    for rel in ("html5parser.py", "treebuilders/base.py", "treebuilders/etree.py", "treebuilders/dom.py"):
+        for f in ctx.repo.module(rel).all_functions:
+            idx_vars = {s.targets[0].id for s in walk_no_nested(f.node) if isinstance(s, ast.Assign) and isinstance(s.targets[0], ast.Name)
+                        and isinstance(s.value, ast.Call) and isinstance(s.value.func, ast.Attribute) and s.value.func.attr == "index"}
+            subs = []
+            for sc in walk_no_nested(f.node):
+                if isinstance(sc, ast.Subscript) and isinstance(sc.slice, ast.BinOp) and isinstance(sc.slice.op, ast.Sub) and \
+                        isinstance(sc.slice.right, ast.Constant) and sc.slice.right.value == 1:
+                    left = sc.slice.left
+                    if (isinstance(left, ast.Name) and left.id in idx_vars) or \
+                            (isinstance(left, ast.Call) and isinstance(left.func, ast.Attribute) and left.func.attr == "index"):
+                        subs.append(sc)
+            if not subs:
+                continue
+            cfg = CFG(f.node)
+            for sc in subs:
+                n13 += 1
+                v = norm(sc.slice.left)
+                loc = cfg.locate(sc)
+                pos_tests = ("%s > 0" % v, "%s >= 1" % v, "%s != 0" % v, v, "0 < %s" % v)
+                guarded = bool(loc) and all(cfg.dominated_by(l, lambda n, lab: n.kind == "test" and (
+                    (norm(n.ast) in pos_tests and lab is True) or (norm(n.ast) in ("%s == 0" % v, "not %s" % v, "%s < 1" % v) and lab is False))) for l in loc)
+                key = "index-minus-one::%s::%s" % (f.qual, norm(sc)[-40:])
+                if guarded:
+                    r.ok("C04.13", key, "%s:%d" % (rel, sc.lineno), detail={"guarded": True})
+                elif f.qual in ARGUED_NONZERO or f.qual.split(".", 1)[-1] in ARGUED_NONZERO:
+                    r.ok("C04.13", key, "%s:%d" % (rel, sc.lineno), detail={"argued": ARGUED_NONZERO.get(f.qual) or ARGUED_NONZERO.get(f.qual.split(".", 1)[-1])})
+                else:
+                    r.bad("C04.13", key, "%s:%d" % (rel, sc.lineno),
+                          "%s reads `%s` without a test that the position is not 0: when the node is the first one, index -1 silently selects "
+                          "the *last* element (text foster-parented before a table that is its parent's first child lands after the last "
+                          "child instead)" % (f.qual, norm(sc)[:60]), {"function": f.qual})
+    if n13 < 4:
+        raise AnalysisError("C04.13 matched %d `[index - 1]` sites" % n13)
     # ---- C04.3b: `childNodes` is a property in the etree back-end (getter returns the shadow list, setter clears both
     # lists): mutating the returned list in place changes the shadow list only
     n3b = 0
